@@ -26,6 +26,8 @@ static uint64_t rng[MAXT];
 static int nthreads;
 static int max_rounds_seen;
 static bool pingpong;
+static long consumed_total, break_after;   // a loop may be abandoned (parallel_break / breakLoop): every thread simply leaves
+static int broken;
 
 static uint64_t trand(int t) { uint64_t& r = rng[t]; r ^= r << 13; r ^= r >> 7; r ^= r << 17; return r * 0x2545F4914F6CDD1Dull; }
 
@@ -41,6 +43,7 @@ static void worker(gsb::TerminationDetection& term, gsb::Barrier& bar, int n, in
   term.initializeThread();
   bar.wait();
   for (;;) {
+    if (obs_load(&broken)) return;   // the executor's break path: threads leave without the detector having announced anything
     // take up to `batch` units from my mailbox
     int have = mailbox[tid].load(std::memory_order_acquire);
     int took = 0;
@@ -64,6 +67,7 @@ static void worker(gsb::TerminationDetection& term, gsb::Barrier& bar, int n, in
         }
       }
       if (trand(tid) % 4 == 0) vsim_yield();
+      if (break_after >= 0 && obs_add(&consumed_total, 1L) + 1 >= break_after) obs_store(&broken, 1);
       long o = obs_add(&outstanding, -1L);
       if (o == 1) { rounds = 0; ncalled = 0; for (int i = 0; i < n; i++) called[i] = 0; }  // last unit gone: start counting fair rounds
     }
@@ -90,7 +94,7 @@ int main() {
   int maxT = (int)vsim_param("maxthreads", 1, cap);
   Machine m = draw_machine(maxT);
   int which = (int)vsim_param("detector", 0, 1);
-  int loops = (int)vsim_param("loops", 1, 4);
+  int loops = (int)vsim_param("loops", 1, 5);
   vsim_note("component", "detector=%s", which ? "tree" : "ring");
   vsim_enable_fault(VF_CAS_WEAK, 0.005, 0.1);
   vsim_enable_fault(VF_COND_SPURIOUS, 0.02, 0.3);
@@ -100,16 +104,22 @@ int main() {
   int hw = (int)tp.getMaxThreads();
   Tree tree;
   std::string plan;
+  int prev_n = 1; bool prev_abandoned = false;
   for (int l = 0; l < loops; l++) {
     int n = (int)wl_range(1, hw);
+    bool after_abandoned = l > 0 && prev_abandoned;
     int units = (int)wl_range(0, 30), spawn_pct = (int)wl_range(0, 70), batch = (int)wl_range(1, 4);
     spawn_budget = wl_range(0, tier() ? 400 : 120);
-    pingpong = wl_chance(45) && hw >= 2;
+    pingpong = wl_chance(after_abandoned ? 80 : 45) && hw >= 2;
+    if (after_abandoned) n = std::max(n, prev_n);   // whatever state the abandoned loop left on a thread is inside the next loop
     if (pingpong) {   // a single unit hopping between few threads: the classical hard case (late transfer to a thread that already looked)
-      n = (int)wl_range(2, std::min(hw, 4)); units = (int)wl_range(1, 2); spawn_pct = (int)wl_range(85, 100); batch = 1; spawn_budget = wl_range(3, 60);
+      n = after_abandoned ? std::max(2, n) : (int)wl_range(2, std::min(hw, 4)); units = (int)wl_range(1, 2); spawn_pct = (int)wl_range(85, 100); batch = 1; spawn_budget = wl_range(3, 60);
     }
     nthreads = n;
     outstanding = 0; rounds = 0; ncalled = 0;
+    // 20 % of the loops (never the last one) are abandoned after a drawn number of consumed units, wherever the token is
+    consumed_total = 0; broken = 0; break_after = (l + 1 < loops && wl_chance(35)) ? wl_range(0, 12) : -1;
+    if (break_after == 0) broken = 1;
     for (int t = 0; t < MAXT; t++) { mailbox[t].store(0, std::memory_order_relaxed); called[t] = 0; unreported[t] = 0; seen_term[t] = 0; rng[t] = vsim_wl_rand() | 1; }
     for (int u = 0; u < units; u++) { int dst = (wl_chance(40) || pingpong) ? 0 : (int)wl_range(0, n - 1); mailbox[dst].fetch_add(1, std::memory_order_relaxed); outstanding++; }
     int bound = 2 * (3 * n + 6);
@@ -118,6 +128,8 @@ int main() {
     auto& bar = galois::runtime::getBarrier(n);
     char b[80]; snprintf(b, sizeof b, "%s[n=%d units=%d spawn=%d%% batch=%d]", l ? " " : "", n, units, spawn_pct, batch); plan += b;
     tp.run(n, [&]() { worker(*term, bar, n, spawn_pct, batch, which ? "tree" : "ring", bound); });
+    prev_n = n; prev_abandoned = obs_load(&broken) != 0;
+    if (obs_load(&broken)) { vsim_probe_add("loops_abandoned", 1); plan += "(abandoned)"; continue; }   // nothing is promised about an abandoned loop; the next one re-arms the same detector
     for (int t = 0; t < n; t++) if (!seen_term[t]) vsim_fail("c04.liveness", "thread %d left the loop without observing termination", t);
     if (outstanding != 0) vsim_fail("c04.safety", "loop %d ended with %ld outstanding units", l, outstanding);
     for (int t = 0; t < n; t++) if (mailbox[t].load() != 0) vsim_fail("c04.safety", "mailbox %d not empty after termination", t);
